@@ -2,6 +2,7 @@
 // assignments between two update() calls (1..600 and the 16/17-bit boundaries) and every batch
 // size of push_backs between two consume() calls (0..600): the consumer obtains the last value /
 // exactly the pushed elements, whatever the count.  Engine seqmc, plain enumeration.
+#include <functional>
 #include "common/vreport.h"
 
 #include "rkcommon/containers/TransactionalBuffer.h"
@@ -78,6 +79,74 @@ static void buffer_burst(const char *ty, long n)
     printf("buffer burst %s n=%ld done\n", ty, n);
 }
 
+// every history of <= D operations over {assign 0/1/2, update()} on one thread: values repeat, so "the last value" is told apart from "a value that differs"
+template <typename T>
+static void value_history(const char *ty, const std::string &h)
+{
+  TransactionalValue<T> tv(mk<T>(0));
+  long cur = 0, last = 0;
+  bool pending = false;
+  const std::string rp = std::string("hist:") + ty + ":" + h;
+  vr::stat("states");
+  vr::stat("transitions", (long long)h.size());
+  for (size_t i = 0; i < h.size(); i++) {
+    const char op = h[i];
+    if (op == 'u') {
+      const bool u = tv.update();
+      const T got = tv.get();
+      const char *bad = nullptr;
+      if (!(got == mk<T>(pending ? last : cur)))
+        bad = "TransactionalValue|update()/get() do not deliver the last value assigned|values repeat";
+      else if (!pending && u)
+        bad = "TransactionalValue|update() true with nothing new";
+      else if (pending && last != cur && !u)
+        bad = "TransactionalValue|update() false although it installed a newer value";
+      if (vr::replaying())
+        printf("  step %zu update() -> %s, get() is value %s; last assigned %ld, current before %ld%s\n", i, u ? "true" : "false",
+            got == mk<T>(0) ? "0" : got == mk<T>(1) ? "1" : got == mk<T>(2) ? "2" : "?", last, cur, bad ? "  <-- VIOLATED" : "");
+      if (bad) {
+        viol(bad, rp, "history " + h + " step " + std::to_string(i));
+        return;
+      }
+      if (pending)
+        cur = last;
+      pending = false;
+    } else {
+      last = op - '0';
+      tv = mk<T>(last);
+      pending = true;
+      if (!(tv.get() == mk<T>(cur))) {
+        viol("TransactionalValue|get() changes before update()", rp, "history " + h + " step " + std::to_string(i));
+        return;
+      }
+    }
+  }
+  vr::outcome(std::string(ty) + h);
+}
+static void all_value_histories(int D)
+{
+  static const char OPS[] = "012u";  // operator=(const TransactionalValue&) cannot be instantiated on this tree (calls ref() on a const object)
+  std::string h;
+  long long n = 0;
+  std::function<void()> rec = [&]() {
+    if (!h.empty() && h.back() == 'u') {  // a history is checked when it ends in update(); its prefixes were checked before
+      value_history<int>("int", h);
+      value_history<std::string>("str", h);
+      n++;
+    }
+    if ((int)h.size() == D)
+      return;
+    for (const char *o = OPS; *o; o++) {
+      h.push_back(*o);
+      rec();
+      h.pop_back();
+    }
+  };
+  rec();
+  vr::sample("every history of <= " + std::to_string(D) + " operations over {=0, =1, =2, update()} ending in update(): " + std::to_string(n) +
+      " histories x {int, string}, e.g. hist:int:10u (assign 1, assign 0 = the consumer's current value, update)");
+}
+
 int main(int argc, char **argv)
 {
   vr::init(argc, argv);
@@ -88,7 +157,12 @@ int main(int argc, char **argv)
     while (std::getline(ss, item, ':'))
       f.push_back(item);
     long n = atol(f[2].c_str());
-    if (f[0] == "val") {
+    if (f[0] == "hist") {
+      if (f[1] == "int")
+        value_history<int>("int", f[2]);
+      else
+        value_history<std::string>("str", f[2]);
+    } else if (f[0] == "val") {
       int rounds = atoi(f[3].c_str());
       if (f[1] == "int")
         value_burst<int>("int", n, rounds);
@@ -103,6 +177,7 @@ int main(int argc, char **argv)
     vr::flush();
     return vr::S().viols.empty() ? 0 : 1;
   }
+  all_value_histories(vr::thorough() ? 9 : 8);
   for (long n = 0; n <= 600; n++) {
     value_burst<int>("int", n, 3);
     value_burst<std::string>("str", n, 2);
